@@ -4,7 +4,7 @@ from ..build import AnalysisBroken
 from ..callgraph import connects
 from ..effects import field_uses, top_function
 
-UNITS = ['server/QXmppIncomingClient.cpp', 'server/QXmppServer.cpp']
+UNITS = ['server/QXmppIncomingClient.cpp', 'server/QXmppServer.cpp', 'server/QXmppPasswordChecker.cpp']
 IC = 'QXmppIncomingClient'
 JID = 'QXmppIncomingClientPrivate::jid'
 JIDX = 'this.d.jid'
@@ -309,3 +309,35 @@ def r5(prog, run):
         run.ok(rid, dr.loc(), 'digest reply: challenge only when respond()==Challenge; no identity, no success here')
     else:
         run.violation(rid, 'onDigestReply#shape', dr.loc(), 'digest reply handler announces success/identity or sends the challenge unguarded')
+    # the base password checker: a refused lookup yields an error and no usable credential (onDigestReply relies on the digest being empty for
+    # AuthorizationError; it only tests TemporaryError itself)
+    for qn, cred in (('QXmppPasswordChecker::getDigest', 'QXmppPasswordReply::setDigest'), ('QXmppPasswordChecker::checkPassword', None)):
+        pc = prog.fn(qn)
+        for e in err['enumerators']:
+            if e['name'] == 'NoError':
+                continue
+            run.instance(rid)
+            name = 'QXmppPasswordReply::' + e['name']
+            ev2 = cfgx.Evaluator(pc, {'QXmppPasswordChecker::getPassword': ('enum', name)})
+
+            def tr(f, nid, st):
+                n = f.nodes[nid]
+                if n['k'] == 'call':
+                    cn = f.cname(n)
+                    if cred and cn == cred:
+                        return st + ('credential',)
+                    if cn == 'QXmppPasswordReply::setError':
+                        v = ev2.ev(n['args'][0], st)
+                        return st + (('error', v[1].split('::')[-1] if isinstance(v, tuple) else '?'),)
+                return None
+            exits2, _ = cfgx.explore(pc, (), tr, lambda f, c, st: ev2.ev(c, st))
+            problems = []
+            for st2 in exits2:
+                if 'credential' in st2:
+                    problems.append('hands out a digest although the lookup failed with %s (the digest of the empty password: DIGEST-MD5 then accepts an unknown user)' % e['name'])
+                if ('error', e['name']) not in st2:
+                    problems.append('does not report %s to the server' % e['name'])
+            if problems:
+                run.violation(rid, '%s#%s' % (qn, e['name']), pc.loc(), '%s %s' % (qn.split('::')[-1], problems[0]))
+            else:
+                run.ok(rid, pc.loc(), '%s: %s is reported, no credential handed out' % (qn.split('::')[-1], e['name']))
